@@ -11,6 +11,7 @@ import (
 	"strconv"
 	"strings"
 	"time"
+	"unicode/utf8"
 )
 
 // GenOpts steers the message generator.
@@ -135,6 +136,10 @@ func genBytes(rng *rand.Rand, kind string, n int) []byte {
 			b = append(b, 'x')
 		}
 		return b
+	case "mixed":
+		// valid UTF-8 for a prefix of PRNG length (often beyond 512 or 4096
+		// bytes, where sniffers stop looking), then bytes that are not UTF-8
+		return mixedBytes(rng, n)
 	case "json":
 		b = append(b, `{"items":[`...)
 		for len(b) < n {
@@ -170,6 +175,86 @@ func genBytes(rng *rand.Rand, kind string, n int) []byte {
 	return b
 }
 
+// mixedBytes returns n bytes: a valid UTF-8 prefix followed by a tail that is
+// not valid UTF-8 (Latin-1 letters, lone continuation bytes, 0xff/0xfe, NULs).
+func mixedBytes(rng *rand.Rand, n int) []byte {
+	if n <= 0 {
+		return []byte{}
+	}
+	tails := [][]byte{{0xe9}, {0x80}, {0xff, 0xfe}, {0x00, 0xc3}, []byte("caf\xe9 \xfcber"), {0xbf, 0xbf, 0x00}, {0xf0, 0x9f, 0x98}, {0xc0, 0xaf}}
+	tail := tails[rng.Intn(len(tails))]
+	extra := 0
+	if rng.Intn(2) == 0 {
+		extra = rng.Intn(40)
+	}
+	tl := len(tail) + extra
+	if tl > n {
+		tl = n
+	}
+	// prefix length: anywhere, with a bias to just past the usual sniffing limits
+	maxPre := n - tl
+	pre := 0
+	if maxPre > 0 {
+		switch rng.Intn(5) {
+		case 0:
+			pre = rng.Intn(maxPre + 1)
+		case 1:
+			pre = 513 + rng.Intn(200)
+		case 2:
+			pre = 4097 + rng.Intn(3000)
+		case 3:
+			pre = maxPre
+		default:
+			pre = 600 + rng.Intn(8000)
+		}
+		if pre > maxPre {
+			pre = maxPre
+		}
+	}
+	kind := "text"
+	if rng.Intn(2) == 0 {
+		kind = "utf8"
+	}
+	b := genBytes(rng, kind, pre)
+	b = append(b, tail...)
+	for len(b) < n {
+		switch rng.Intn(4) {
+		case 0:
+			b = append(b, 0)
+		case 1:
+			b = append(b, byte(0x80+rng.Intn(0x40)))
+		case 2:
+			b = append(b, byte(0xc0+rng.Intn(0x40)))
+		default:
+			b = append(b, 'a'+byte(rng.Intn(26)))
+		}
+	}
+	b = b[:n]
+	if utf8.Valid(b) { // cannot happen for n >= len(tail); keep the promise anyway
+		b[len(b)-1] = 0xff
+	}
+	return b
+}
+
+// EncodeGzipMembers compresses payload as a gzip stream of len(cuts)+1
+// members (RFC 1952 section 2.2: a gzip file is a series of members); cuts are
+// ascending offsets into payload, equal offsets give empty members.
+func EncodeGzipMembers(payload []byte, cuts []int) []byte {
+	var buf bytes.Buffer
+	prev := 0
+	for i := 0; i <= len(cuts); i++ {
+		end := len(payload)
+		if i < len(cuts) {
+			end = cuts[i]
+		}
+		w := gzip.NewWriter(&buf)
+		w.Write(payload[prev:end])
+		w.Close()
+		prev = end
+	}
+	return buf.Bytes()
+}
+
 // Encode applies a content coding.
 func Encode(kind string, payload []byte) []byte {
 	var buf bytes.Buffer
@@ -190,6 +275,14 @@ func Encode(kind string, payload []byte) []byte {
 		return payload
 	}
 	return buf.Bytes()
+}
+
+func sortInts(a []int) {
+	for i := 1; i < len(a); i++ {
+		for j := i; j > 0 && a[j] < a[j-1]; j-- {
+			a[j], a[j-1] = a[j-1], a[j]
+		}
+	}
 }
 
 func splitChunks(rng *rand.Rand, n int) []int {
@@ -227,6 +320,7 @@ var methodsBody = []string{"POST", "PUT", "PATCH"}
 var methodsNoBody = []string{"GET", "GET", "GET", "DELETE", "OPTIONS", "HEAD"}
 
 var plainCTypes = map[string][]string{
+	"mixed":  {"text/plain", "text/plain; charset=iso-8859-1", "text/html", "application/json", "text/csv"},
 	"text":   {"text/plain", "text/plain; charset=utf-8", "Text/HTML", "text/css", "application/x-custom"},
 	"utf8":   {"text/plain; charset=utf-8", "text/html; charset=UTF-8", "application/xml"},
 	"json":   {"application/json", "APPLICATION/JSON; charset=utf-8", "application/vnd.api+json"},
@@ -289,16 +383,22 @@ func genForm(rng *rand.Rand, size int) (body []byte, form []Field) {
 	for i := 0; i == 0 || tot < size; i++ {
 		name := []string{"user", "pass word", "k&=", "é", "f" + strconv.Itoa(i), "dup"}[rng.Intn(6)]
 		var val string
-		switch rng.Intn(4) {
+		switch rng.Intn(5) {
 		case 0:
 			val = ""
 		case 1:
 			val = "a b+c&d=e%/é\r\n"
+		case 2:
+			// text that stops being UTF-8 somewhere (Latin-1, lone continuation bytes, NUL)
+			val = string(mixedBytes(rng, 3+rng.Intn(60)))
 		default:
 			val = randToken(rng, 1+rng.Intn(40))
 		}
 		if size > 2000 && rng.Intn(3) == 0 {
 			val = randToken(rng, 500)
+			if rng.Intn(3) == 0 {
+				val = string(mixedBytes(rng, 600+rng.Intn(600)))
+			}
 		}
 		form = append(form, Field{name, val})
 		p := url.QueryEscape(name) + "=" + url.QueryEscape(val)
@@ -326,13 +426,16 @@ func genMultipart(rng *rand.Rand, size int, binaryOK bool) (body []byte, boundar
 		if isFile {
 			p.Filename = []string{"a.txt", "photo.png", "data.bin", "résumé.pdf"}[rng.Intn(4)]
 			p.ContentType = []string{"text/plain", "image/png", "application/octet-stream"}[rng.Intn(3)]
-			if binaryOK && rng.Intn(2) == 0 {
+			switch x := rng.Intn(4); {
+			case binaryOK && x < 2:
 				p.Value = genBytes(rng, "binary", vlen)
-			} else {
+			case binaryOK && x == 2:
+				p.Value = genBytes(rng, "mixed", vlen)
+			default:
 				p.Value = genBytes(rng, "text", vlen)
 			}
 		} else {
-			p.Value = genBytes(rng, []string{"text", "utf8"}[rng.Intn(2)], vlen%300)
+			p.Value = genBytes(rng, []string{"text", "utf8", "mixed"}[rng.Intn(3)], vlen%300)
 		}
 		// the boundary delimiter must not occur in a value
 		p.Value = bytes.ReplaceAll(p.Value, []byte("\r\n--"+boundary), []byte("\r\n-+"+boundary))
@@ -357,12 +460,18 @@ func genMultipart(rng *rand.Rand, size int, binaryOK bool) (body []byte, boundar
 // fillBody draws body kind, content type, coding and framing-independent
 // material into s. withBody=false leaves the body empty.
 func fillBody(rng *rand.Rand, s *Spec, o GenOpts, size int, allowForms bool) {
-	kinds := []string{"text", "utf8", "json", "binary", "binary"}
+	kinds := []string{"text", "utf8", "json", "binary", "binary", "mixed", "mixed"}
 	kind := kinds[rng.Intn(len(kinds))]
 	if allowForms && o.Rich && rng.Intn(3) == 0 {
 		kind = []string{"form", "multipart"}[rng.Intn(2)]
 		if o.BadForms && rng.Intn(6) == 0 {
 			kind = "bad" + kind
+		}
+	}
+	if kind == "mixed" && size > 1 && size < 4096 && rng.Intn(2) == 0 {
+		size = 700 + rng.Intn(9000)
+		if o.MaxSize > 0 && size > o.MaxSize {
+			size = o.MaxSize
 		}
 	}
 	if size == 0 && kind != "badform" && kind != "badmultipart" {
@@ -421,7 +530,21 @@ func fillBody(rng *rand.Rand, s *Spec, o GenOpts, size int, allowForms bool) {
 	default:
 		s.Coding, s.CodingKind = "identity", "identity"
 	}
-	if s.CodingKind == "gzip" || s.CodingKind == "deflate" || s.CodingKind == "zlib" {
+	if s.CodingKind == "gzip" && rng.Intn(3) == 0 {
+		// several gzip members, some possibly empty
+		k := 1 + rng.Intn(3)
+		cuts := make([]int, k)
+		for i := range cuts {
+			cuts[i] = rng.Intn(len(s.Payload) + 1)
+			if rng.Intn(4) == 0 && i > 0 {
+				cuts[i] = cuts[i-1]
+			}
+		}
+		sortInts(cuts)
+		s.Members = k + 1
+		s.Body = EncodeGzipMembers(s.Payload, cuts)
+	} else if s.CodingKind == "gzip" || s.CodingKind == "deflate" || s.CodingKind == "zlib" {
+		s.Members = 1
 		s.Body = Encode(s.CodingKind, s.Payload)
 	}
 }
